@@ -50,6 +50,10 @@ func c14Catalog(i int) []uint {
 func c14Dividend() uint {
 	D := vNondetUint("D")
 	vAssume(D < uint(1)<<uint(vParam("Dbits", 16)))
+	// Dbase > 0: the dividends 2^Dbase + d, d < 2^Dbits (magnitudes at which float64 no longer holds every integer)
+	if b := vParam("Dbase", 0); b > 0 {
+		D += uint(1) << uint(b)
+	}
 	return D
 }
 
@@ -109,9 +113,19 @@ func c14ShareAsserts(list []uint, D uint, inc []uint) {
 	for i := 0; i+1 < len(list); i++ {
 		vAssert(inc[i] >= inc[i+1], "Rate increments are non-increasing along the list")
 	}
+	base := vParam("Dbase", 0)
+	if base > 60 {
+		return // 2*D*p would wrap in the oracle's own machine arithmetic: conservation and order only
+	}
 	for i, p := range list {
 		a, b := 2*S*inc[i], 2*D*p
-		vAssert(vOr(vAnd(a >= b, a-b <= n*S), vAnd(b >= a, b-a <= n*S)), "every Rate increment is within n/2 of the exact proportional share")
+		within := vOr(vAnd(a >= b, a-b <= n*S), vAnd(b >= a, b-a <= n*S))
+		if base >= 54 {
+			// float64 holds only every 4th integer here; a separate message, because this part of the statement is a recorded finding
+			vAssert(within, "every Rate increment is within n/2 of the exact proportional share (dividends of 2^54 and above)")
+			continue
+		}
+		vAssert(within, "every Rate increment is within n/2 of the exact proportional share")
 	}
 }
 
